@@ -27,7 +27,7 @@ LEVEL = "model_checking"
 AREA = "limitedstream"
 
 RAW_OPS = ["read", "readall", "readline", "next", "readlines", "readinto", "readinto_mv", "exhaust"]
-BUF_OPS = ["read", "readall", "read1", "readline", "next", "readlines", "readinto", "readinto_mv", "readinto1"]
+BUF_OPS = ["read", "readall", "read1", "readline", "next", "readlines", "readinto", "readinto_mv", "readinto1", "peek"]
 TXT_OPS = ["read", "readall", "readline", "next", "readlines"]
 SIZED = {"read", "read1", "readinto", "readinto_mv", "readinto1"}
 OPS = {"raw": RAW_OPS, "buffered": BUF_OPS, "text": TXT_OPS}
@@ -235,6 +235,54 @@ def judge_selftest(ctx: Ctx):
     ctx.notes["judge_selftest"] = f"correct synthetic trace accepted, {len(bad)} single-field corruptions rejected with the expected clause"
 
 
+def growth_models(ctx: Ctx):
+    """Growth round: (1) io.BufferedReader over LimitedStream as a TLC-checked state machine
+    (BufferedLS.tla), (2) liveness of the read loops under weak fairness + a spinning variant TLC
+    must refute with a lasso, (3) unbounded accounting with Apalache (thorough tier only)."""
+    q = ctx.quick
+    # (1) buffering layer: read-ahead never beyond the limit, upos = delivered + buffered, contract
+    ctx.model_check(AREA, "MCBufferedLS", "MCBQ_fixed2" if q else "MCBQ_fixed", timeout=900)
+    if not q:
+        ctx.model_check(AREA, "MCBufferedLS", "MCBT_wide", timeout=3000)
+    for variant in (("over2",) if q else ("over", "f10")):
+        r = tlc.run_tlc(AREA, "MCBufferedLS", f"MCBQ_{variant}", workers=ctx.workers, tmp=ctx.tmp,
+                        allow_violation=True, timeout=600)
+        ctx.notes[f"buffered_model_{variant}_violates"] = r.invariant_violated
+        if r.invariant_violated not in ("Contract", "NoOverReadInv", "Accounting"):
+            raise tlc.MachineryError(f"defective buffered model variant {variant} violates nothing")
+    # (2) liveness, no state constraint
+    r = ctx.model_check(AREA, "MCLimitedStream", "MCL_live", timeout=600)
+    ctx.notes["liveness"] = f"Terminates == [](~Idle => <>Idle) holds under WF(Step): {r.distinct} states"
+    if not q:
+        t = L.tlc_temporal(AREA, "MCLimitedStream", "MCL_spin", ctx.tmp, workers=min(ctx.workers, 4))
+        ctx.notes["liveness_spin_variant"] = {k: t[k] for k in ("violated", "lasso", "distinct", "wall_s")}
+        if not (t["violated"] and t["lasso"]):
+            raise tlc.MachineryError(f"spinning readall variant was not refuted with a lasso:\n{t['tail']}")
+        # (3) Apalache: inductive invariant over unbounded integers
+        obl = L.apalache_obligations(ctx.tmp, timeout=300)
+        ctx.notes["apalache"] = obl
+        if any(o["outcome"] not in ("unavailable", "timeout") and o["outcome"] != o["expected"] for o in obl):
+            raise tlc.MachineryError(f"Apalache obligation failed: {obl}")
+        if any(o["outcome"] in ("unavailable", "timeout") for o in obl):
+            ctx.assumptions.append("Apalache obligations not (all) discharged in this run: see coverage.apalache")
+
+
+def growth_replay(ctx: Ctx, rng):
+    """spec -> code for the buffering layer: every exported behaviour of BufferedLS.tla is run on a
+    real io.BufferedReader(LimitedStream(..), buffer_size=B); contract verdicts + drift."""
+    q = ctx.quick
+    beh = [v for v in ctx.export(AREA, "MCBufferedLS", "MCBX_q" if q else "MCBX_hist_w", count_states=False, timeout=1500)
+           if isinstance(v, dict) and "hist" in v]
+    ctx.notes["buffered_behaviours_exported"] = len(beh)
+    if not beh:
+        raise tlc.MachineryError("no behaviours exported from the buffered model")
+    cap = 2500 if q else 60000
+    if len(beh) > cap:
+        beh = rng.sample(beh, cap)
+    ctx.notes["buffered_behaviours_replayed"] = len(beh)
+    judge_traces(ctx, [case_from_model(v) for v in beh], "buffered-model-behaviour")
+
+
 def run(ctx: Ctx):
     q = ctx.quick
     rng = random.Random(ctx.seed)
@@ -254,7 +302,7 @@ def run(ctx: Ctx):
     judge_selftest(ctx)
     # 1. model checking
     ctx.model_check(AREA, "MCLimitedStream", "MCQ_fixed", timeout=600)
-    ctx.model_check(AREA, "MCInputChoice", "MCInputChoice", workers=1, timeout=300)
+    # (the decision table MCInputChoice is model-checked by the export run below: same cfg, same invariants)
     if not q:
         for cfg in ("MCT_deep", "MCT_wide", "MCT_big"):
             ctx.model_check(AREA, "MCLimitedStream", cfg, timeout=3000)
@@ -265,6 +313,7 @@ def run(ctx: Ctx):
         ctx.notes[f"model_{variant}_violates"] = r.invariant_violated
         if r.invariant_violated != "Contract":
             raise tlc.MachineryError(f"defective model variant {variant} does not violate Contract: vacuous contract?")
+    growth_models(ctx)
     ctx.exhaustive = True
     # 2. spec -> code
     behaviours = [v for v in ctx.export(AREA, "MCLimitedStream", "MCX_hist" if q else "MCX_hist3", count_states=False,
@@ -273,18 +322,19 @@ def run(ctx: Ctx):
     ctx.notes["model_behaviours_exported"] = len(behaviours)
     if not behaviours:
         raise tlc.MachineryError("no behaviours exported from the model")
-    if q and len(behaviours) > 6000:
-        behaviours = rng.sample(behaviours, 6000)
+    if q and len(behaviours) > 4000:
+        behaviours = rng.sample(behaviours, 4000)
     elif len(behaviours) > 100000:
         behaviours = rng.sample(behaviours, 100000)
     ctx.notes["model_behaviours_replayed"] = len(behaviours)
     judge_traces(ctx, [case_from_model(v) for v in behaviours], "model-behaviour")
-    table = [v for v in ctx.export(AREA, "MCInputChoice", "MCInputChoice", count_states=False) if isinstance(v, dict) and "in" in v]
+    growth_replay(ctx, rng)
+    table = [v for v in ctx.export(AREA, "MCInputChoice", "MCInputChoice", count_states=True) if isinstance(v, dict) and "in" in v]
     ctx.notes["input_table_rows"] = len(table)
     judge_choices(ctx, choice_cases(rng, table, q))
     # 3. code -> spec
     cases = enum_cases(q)
-    cases += [rand_case(rng) for _ in range(3000 if q else 70000)]
+    cases += [rand_case(rng) for _ in range(2500 if q else 70000)]
     cases += [rand_case(rng, big=True) for _ in range(300 if q else 6000)]
     judge_traces(ctx, cases, "driver")
     if ctx.model_drift:
